@@ -36,7 +36,10 @@ def PrinterState.member (n : String) : PrinterState → Bool × PrinterState
 structure Opts where
   indent : String := "    "
   descriptions : Bool := true
-  custom : Bool := false       -- include_custom_schema_directives (True/False)
+  /-- truthiness of `include_custom_schema_directives` (`False` and `[]` print no directive at all) -/
+  custom : Bool := false
+  /-- `include_custom_schema_directives` given as a list of names (`none`: a boolean was given) -/
+  whitelist : Option (List String) := none
   deriving Repr, Inhabited
 
 /-! ### string helpers (Python `str` methods used by the printer) -/
@@ -210,21 +213,26 @@ abbrev Apps := List (String × List DirApp)
 
 def Apps.get (a : Apps) (path : String) : List DirApp := ((a.find? (·.1 == path)).map (·.2)).getD []
 
-/-- the directive nodes for which `include_custom_schema_directive(name)` holds, in order; every test
-    goes through the module-level state -/
-def keepCustom : List DirApp → PrinterState → List DirApp × PrinterState
+/-- the directive nodes for which `include_custom_schema_directive(name)` holds, in order: the name is first
+    tested against the module-level state (specified directives are never "custom"), then against the
+    whitelist if one was given. The node list itself is NOT modified. -/
+def onWhitelist (wl : Option (List String)) (name : String) : Bool :=
+  match wl with | none => true | some w => w.contains name
+
+def keepCustom (wl : Option (List String)) : List DirApp → PrinterState → List DirApp × PrinterState
   | [], st => ([], st)
   | d :: ds, st =>
     let m := st.member d.name
-    let r := keepCustom ds m.2
-    (if m.1 then r.1 else d :: r.1, r.2)
+    let r := keepCustom wl ds m.2
+    let keep := !m.1 && onWhitelist wl d.name
+    (if keep then d :: r.1 else r.1, r.2)
 
 /-- `print_directives(definition)` -/
 def printDirectives (o : Opts) (apps : Apps) (path : String) (st : PrinterState) : String × PrinterState :=
   if !o.custom then ("", st) else
   let nodes := apps.get path
   if nodes.isEmpty then ("", st) else
-  let k := keepCustom nodes st
+  let k := keepCustom o.whitelist nodes st
   (" " ++ " ".intercalate (k.1.map dirAppText), k.2)
 
 def DEFAULT_DEPRECATION := "No longer supported"
